@@ -187,6 +187,7 @@ static void op_destroy(int slot, const char *when)
     check_registry(when);
     use_dead(d, when);
 }
+#define NKIND 12
 static void op_error_exit(int slot, int kind, const char *when)
 {
     int desc = M.desc[slot]; const struct cfg *g = &CFG[M.cfg[slot]]; int k = g->k, n = g->k + g->m;
@@ -206,6 +207,35 @@ static void op_error_exit(int slot, int kind, const char *when)
             for (int i = 0; i < k; i++) list[i] = i ? F[i] : bad; rc = liberasurecode_decode(desc, list, k, fl, 1, &out, &ol); break;  /* foreign fragment, forced checks */
     case 5: rc = liberasurecode_decode(desc, NULL, n, fl, 0, &out, &ol); break;
     case 6: rc = liberasurecode_decode(desc, F, n, 79, 0, &out, &ol); break;
+    /* 7-10: a rejected call is handed output variables that still hold the (already released) results of an earlier call,
+     * as any caller that loops over requests with the same variables does: the library must not release them again */
+    case 7: case 8: case 9: {
+        char **ed2 = NULL, **ep2 = NULL; uint64_t fl2 = 0;
+        if (liberasurecode_encode(desc, (char *)data, 40, &ed2, &ep2, &fl2)) { vh_violation("live-instance-unusable", "%s: encode failed", when); break; }
+        liberasurecode_encode_cleanup(desc, ed2, ep2);            /* ed2/ep2 are now stale */
+        lc0 = ledger_count(); lb0 = ledger_bytes();
+        if (kind == 7) rc = liberasurecode_encode(desc, NULL, 40, &ed2, &ep2, &fl2);
+        else if (kind == 8) rc = liberasurecode_encode(desc, (char *)data, 40, &ed2, &ep2, NULL);
+        else rc = liberasurecode_encode(-1, (char *)data, 40, &ed2, &ep2, &fl2);
+        break; }
+    case 10: {
+        char *o2 = NULL; uint64_t ol2 = 0;
+        if (liberasurecode_decode(desc, F, n, fl, 0, &o2, &ol2)) { vh_violation("live-instance-unusable", "%s: decode failed", when); break; }
+        liberasurecode_decode_cleanup(desc, o2);                   /* o2 is now stale */
+        lc0 = ledger_count(); lb0 = ledger_bytes();
+        rc = liberasurecode_decode(desc, F, k > 1 ? k - 1 : 0, fl, 0, &o2, &ol2);
+        if (rc >= 0 && k == 1) rc = -1;
+        break; }
+    /* 11: the first result is still in use when the rejected call is made with the same variables; it is released afterwards */
+    case 11: {
+        char **ed2 = NULL, **ep2 = NULL; uint64_t fl2 = 0;
+        if (liberasurecode_encode(desc, (char *)data, 40, &ed2, &ep2, &fl2)) { vh_violation("live-instance-unusable", "%s: encode failed", when); break; }
+        char **sed = ed2, **sep = ep2;
+        lc0 = ledger_count(); lb0 = ledger_bytes();
+        rc = liberasurecode_encode(desc, NULL, 40, &ed2, &ep2, &fl2);
+        if (ledger_count() != lc0 || ledger_bytes() != lb0) vh_violation("free-of-unowned-block", "%s: a rejected encode released (or replaced) the caller's earlier, still live, encode result", when);
+        else { liberasurecode_encode_cleanup(desc, sed, sep); lc0 = ledger_count(); lb0 = ledger_bytes(); }
+        break; }
     }
     if (rc >= 0) vh_violation("error-exit-succeeded", "%s: error exit %d on %s returned %d", when, kind, g->name, rc);
     if (ledger_count() != lc0 || ledger_bytes() != lb0) { char dd[160]; ledger_dump(dd, sizeof dd); vh_violation("leak", "%s: error exit %d on %s left %ld blocks / %ld bytes allocated (live sizes %s)", when, kind, g->name, ledger_count() - lc0, ledger_bytes() - lb0, dd); }
@@ -350,7 +380,7 @@ static void plan_states(void)
                 struct astate tg = s; memmove(&tg.cfg[i], &tg.cfg[i + 1], sizeof(int) * (size_t)(n - i - 1)); tg.n = n - 1;
                 memset(&t, 0, sizeof t); t.from = s; t.op = 2; t.arg = i; snprintf(label, sizeof label, "D(%d)", i); run_transition(&t, &tg, label);
                 memset(&t, 0, sizeof t); t.from = s; t.op = 3; t.arg = i; snprintf(label, sizeof label, "U(%d)", i); run_transition(&t, NULL, label);
-                for (int kind = 0; kind < 7; kind++) { memset(&t, 0, sizeof t); t.from = s; t.op = 4; t.arg = i; t.arg2 = kind; snprintf(label, sizeof label, "E(%d,%d)", i, kind); run_transition(&t, &s, label); }
+                for (int kind = 0; kind < NKIND; kind++) { memset(&t, 0, sizeof t); t.from = s; t.op = 4; t.arg = i; t.arg2 = kind; snprintf(label, sizeof label, "E(%d,%d)", i, kind); run_transition(&t, &s, label); }
             }
             if (!preset) { struct astate tg = s; tg.preset = 1; memset(&t, 0, sizeof t); t.from = s; t.op = 5; snprintf(label, sizeof label, "P"); run_transition(&t, &tg, label); }
             vh_group_end();
@@ -359,7 +389,8 @@ static void plan_states(void)
 }
 
 /* ------------------------------------------------------------ plan "seq": unmerged sequences */
-static const char LET[] = "abcdeuvxf";
+static const char LET[] = "abcdeuvxfy";
+#define NLET 10
 static int seq_step(char L, int pos)
 {
     char when[32]; snprintf(when, sizeof when, "step%d:%c", pos, L);
@@ -370,6 +401,7 @@ static int seq_step(char L, int pos)
     case 'u': if (!M.n) return 0; use_and_compare(0, when); return 1;
     case 'v': if (M.n < 2) return 0; use_and_compare(M.n - 1, when); return 1;
     case 'x': if (!M.n) return 0; op_error_exit(0, pos % 7, when); return 1;
+    case 'y': if (!M.n) return 0; op_error_exit(M.n - 1, 7 + pos % 5, when); return 1;
     case 'f': op_create(5 + pos % 3, when); if (M.ndead) use_dead(M.dead[M.ndead - 1], when); return 1;
     }
     return 0;
@@ -389,14 +421,14 @@ static void plan_seq(void)
     compute_golden();
     /* every depth from 1, so that "up to depth" is literal; each sequence runs in its own child forked from a pristine process */
     for (int d = 1; d <= depth; d++) {
-        int pl = d > 3 ? 3 : 1; long n2 = 1; for (int i = 0; i < pl; i++) n2 *= 9;
-        long rest = 1; for (int i = 0; i < d - pl; i++) rest *= 9;
+        int pl = d > 3 ? 3 : 1; long n2 = 1; for (int i = 0; i < pl; i++) n2 *= NLET;
+        long rest = 1; for (int i = 0; i < d - pl; i++) rest *= NLET;
         for (long gi = 0; gi < n2; gi++) {
-            char prefix[8]; long c = gi; for (int i = 0; i < pl; i++) { prefix[i] = LET[c % 9]; c /= 9; } prefix[pl] = 0;
+            char prefix[8]; long c = gi; for (int i = 0; i < pl; i++) { prefix[i] = LET[c % NLET]; c /= NLET; } prefix[pl] = 0;
             if (!vh_group_begin("H/seq/d%d/%s", d, prefix)) continue;
             for (long code = 0; code < rest; code++) {
                 char seq[16]; memcpy(seq, prefix, (size_t)pl); long cc = code;
-                for (int i = pl; i < d; i++) { seq[i] = LET[cc % 9]; cc /= 9; }
+                for (int i = pl; i < d; i++) { seq[i] = LET[cc % NLET]; cc /= NLET; }
                 seq[d] = 0;
                 if (!vh_case_begin("%s", seq)) continue;
                 char out[64]; vh_op(seq);
